@@ -32,11 +32,13 @@ SCAFFOLD = [('S', {
     'H1': DT(2020, 1, 31), 'I1': 1, 'J1': '=EDATE(H1,I1)', 'K1': '=EOMONTH(H1,I1)',
     'M1': DT(2020, 3, 15),
     'L1': '=DATEDIF(H1,M1,"D")', 'L2': '=DATEDIF(H1,M1,"M")', 'L3': '=DATEDIF(H1,M1,"Y")', 'L4': '=DATEDIF(H1,M1,"YM")',
-    'N1': '=NETWORKDAYS(H1,M1)', 'N2': '=NETWORKDAYS(H1,M1,P1:P4)', 'Q5': 1,
+    'N1': '=NETWORKDAYS(H1,M1)', 'N2': '=NETWORKDAYS(H1,M1,P1:P4)', 'Q5': 1, 'N3': '=NETWORKDAYS(H1,M1,Hol!A:A)',
+    'K3': '=EOMONTH(T1,I1)', 'T1': DT(2020, 1, 31, 13, 45),
     'R1': '=YEAR(H1)', 'R2': '=MONTH(H1)', 'R3': '=DAY(H1)',
     # arguments that are expressions / bracketed / read through a formula cell
     'S1': '=H1', 'J2': '=EDATE(S1,I1+0)', 'K2': '=EOMONTH((H1),(I1))', 'D2': '=DATE(A1+0,(B1),C1*1)',
-})]
+}), ('Hol', {'A%d' % r: DT(1990, 1, r) for r in range(1, 5)})]   # the holidays of N3 live in Hol!A1:A4 (overridden from row 1 down; the
+# planted dates are far from every interval): the used range of that sheet ends in the last holiday row
 
 
 # ---------------------------------------------------------------------------------------------
@@ -327,6 +329,13 @@ def run_edate_ov(cases, stats):
     for i, c in enumerate(cases):
         d = undo(c['d'])
         for k in OFFSETS:
+            if k in (-13, -1, 0, 1, 13):
+                # a start value with a time of day: the last day of the month is still a day (midnight)
+                tt = d.replace(hour=13, minute=45)
+                oo, = S.run(cls, [('T1', tt), ('I1', k)], ['K3'], stats)
+                stats['validated'] += 1
+                if not (oo[0] == 'VALUE' and is_dt(oo[1], ref_eomonth(d, k))):
+                    _v(vio, i, {'func': 'EOMONTH', 'src': 'ov', 'start': 'date-time with a time of day'}, oo, ref_eomonth(d, k))
             o = S.run(cls, [('H1', d), ('I1', k)], ['J1', 'K1', 'R1', 'R2', 'R3', 'J2', 'K2'], stats)
             judge_edate(d, k, o[5], o[6], 'ov-expression-arguments', stats, i, vio)
             o = o[:5]
@@ -457,10 +466,12 @@ def run_nwd_ov(cases, stats):
                     if hset is HOLS2 and mask == 0:
                         continue
                     hs = [(HADDR[j], hset[j]) for j in range(4) if mask >> j & 1]
-                    o = S.run(cls, [('H1', a), ('M1', b)] + hs, ['N1', 'N2'], stats)
+                    whole = [(('Hol', 'A%d' % (j + 1)), h) for j, (_, h) in enumerate(hs)]   # packed from row 1 down
+                    o = S.run(cls, [('H1', a), ('M1', b)] + hs + whole, ['N1', 'N2', 'N3'], stats)
                     stats['x:networkdays_cases'] += 1
                     stats['cases'] += 1
                     judge_nwd(a, b, [h for _, h in hs], o[0], o[1], 'ov', stats, i, vio)
+                    judge_nwd(a, b, [h for _, h in hs], None, o[2], 'ov-whole-column-holidays', stats, i, vio)
     return vio
 
 
